@@ -31,6 +31,8 @@ import os, re, shutil, subprocess, sys, tempfile, time
 
 HERE = os.path.dirname(os.path.abspath(__file__))
 ROOT = os.path.dirname(HERE)
+# the pristine Rust sources: repo-src/ inside a development copy, otherwise $KESTREL_REPO, otherwise /repo (only read, copied to a scratch directory)
+PRISTINE = os.path.join(ROOT, 'repo-src') if os.path.isdir(os.path.join(ROOT, 'repo-src')) else os.environ.get('KESTREL_REPO', '/repo')
 SRC_REL = os.path.join('src', 'crypto', 'src')
 FILES = ('lib.rs', 'noise.rs', 'errors.rs')
 TRANSLATOR = os.path.join(HERE, 'rs2lean_noise.py')
@@ -404,7 +406,7 @@ class Bench:
         self.lean = os.path.join(self.tmp, 'lean')
         shutil.copytree(os.path.join(ROOT, 'lean'), self.lean, symlinks=True)
         self.gen = os.path.join(self.lean, GENERATED_REL)
-        self.pristine_src = os.path.join(ROOT, 'repo-src', SRC_REL)
+        self.pristine_src = os.path.join(PRISTINE, SRC_REL)
         self.n = 0
         self.theorems = {}
         for rel in PROOF_FILES:
